@@ -50,14 +50,14 @@ QuantE(op, all, x, q) == [k |-> "quant", op |-> op, all |-> all, x |-> x, q |-> 
 
 (* --- tables as bags: every multiset of <= maxRows rows of width w over
        {NULL, 0..maxVal}, once, as the sequence sorted by row code ---       *)
-Base(maxVal) == maxVal + 2
+NBase(maxVal) == maxVal + 2
 ValOf(d)     == IF d = 0 THEN <<>> ELSE <<d - 1>>
 RECURSIVE Pow(_, _)
 Pow(b, e)    == IF e = 0 THEN 1 ELSE b * Pow(b, e - 1)
 RowOf(code, w, maxVal) ==
-  [j \in 1..w |-> ValOf((code \div Pow(Base(maxVal), w - j)) % Base(maxVal))]
+  [j \in 1..w |-> ValOf((code \div Pow(NBase(maxVal), w - j)) % NBase(maxVal))]
 NonDecr(S, n) == {s \in [1..n -> S] : \A i \in 1..(n - 1) : s[i] <= s[i + 1]}
 Tables(w, maxRows, maxVal) ==
-  UNION { { [i \in 1..n |-> RowOf(cs[i], w, maxVal)] : cs \in NonDecr(0..(Pow(Base(maxVal), w) - 1), n) }
+  UNION { { [i \in 1..n |-> RowOf(cs[i], w, maxVal)] : cs \in NonDecr(0..(Pow(NBase(maxVal), w) - 1), n) }
           : n \in 0..maxRows }
 =============================================================================
